@@ -288,7 +288,7 @@ def parts(tier):
     return [HypPart(name="texts", check=check, strategy=_case,
                     examples=110 if quick else 4000, seconds=42 if quick else 800),
             HypPart(name="whitelist", check=check_whitelist, strategy=_wl_case,
-                    examples=12 if quick else 300, seconds=25 if quick else 400)]
+                    examples=30 if quick else 500, seconds=25 if quick else 400)]
 
 
 # ---------------------------------------------------------------- whitelist histories
@@ -298,11 +298,28 @@ _VALID = "# page {n}\n\n- 2401{d:02d}#a{i} note of {n}\no P2 2401{d:02d}#b{i} to
 _BROKEN = "# page {n}\n\n- 2401{d:02d}#a{i} note of {n}\n- [[unclosed\n"
 
 
+_PAIRS = [("notes.zo", "project_notes.zo"), ("a.zo", "aa.zo"), ("a.zo", "sub/a.zo"), ("b.zo", "ab.zo"),
+          ("notes.zo", "sub/notes.zo"), ("o.zo", "foo.zo")]
+
+
 @st.composite
 def _wl_case(draw):
-    names = draw(st.lists(st.sampled_from(_NAMES), min_size=2, max_size=5, unique=True))
-    init = {n: draw(st.sampled_from(["valid", "valid", "broken"])) for n in names}
-    later = {n: draw(st.sampled_from(["same", "same", "break", "fix", "edit"])) for n in names}
+    names = []
+    init, later = {}, {}
+    for sub, sup in draw(st.lists(st.sampled_from(_PAIRS), min_size=1, max_size=2, unique=True)):
+        for n in (sub, sup):
+            if n not in names:
+                names.append(n)
+        # a whitelisted broken page whose name contains the name of a page that breaks later
+        init[sup] = draw(st.sampled_from(["broken", "broken", "valid"]))
+        init[sub] = draw(st.sampled_from(["valid", "valid", "broken"]))
+        later[sub] = draw(st.sampled_from(["break", "break", "same", "edit", "fix"]))
+        later[sup] = draw(st.sampled_from(["same", "same", "fix", "edit", "break"]))
+    for n in draw(st.lists(st.sampled_from(_NAMES), max_size=2, unique=True)):
+        if n not in names:
+            names.append(n)
+            init[n] = draw(st.sampled_from(["valid", "valid", "broken"]))
+            later[n] = draw(st.sampled_from(["same", "same", "break", "fix", "edit"]))
     return {"names": names, "init": init, "later": later, "cmd": draw(st.sampled_from(["create", "reindex"])),
             "today": "2024-06-15"}
 
